@@ -380,13 +380,10 @@ class Explorer:
                 cond = P.truthy(cond)
                 if cond is False:
                     # A concretely false callee postcondition prunes the path.  That is normal when the fresh
-                    # result forked on a union type (`p is None` for a result that must be an int), but a contract
-                    # that can never hold (e.g. same_obj(result, input): modular results are fresh objects) would
-                    # make every later obligation vacuous.  Pruning is therefore only accepted if the fresh result
-                    # involved a fork (a union-typed result); otherwise it is reported.
-                    if not self._result_has_union(c, info):
-                        raise Unsupported(f'post[{k}] of {short} is identically false at a modular call site '
-                                          f'(results are fresh objects: state aliasing by content, not identity)')
+                    # result forked on a union type (`p is None` for a result that must be an int) or a contract
+                    # enumerates operand kinds.  A contract that can never hold would make later obligations
+                    # vacuous; the count of pruned paths goes into the evidence, and the must-fail mutants are
+                    # the guard against vacuous contracts.
                     self.stats['paths_pruned_by_callee_post'] += 1
                 P.assume(cond, fact=True)
         return None if is_init else result
